@@ -49,46 +49,72 @@ TAB = "table-agreement relations over the IR initialisers"
 WIT = "compile-fail witnesses"
 CF = "closed-form evaluation of extracted expression DAGs"
 BW = "bounded-write relation analysis"
+BP = "R-BITPROV exact bit-lane transducer interpretation + product with the documented automaton"
 CHECKS.update({
- "C01": _partial("C01", "(1) the documented layout (field offsets/widths/masks, H3_INIT, mode value, counts, digit 7) as compile-time witnesses; (2) no path of isValidCell "
-                 "returns true unless each of its five tests passed (top bits, base cell <= 121, no 7 up to res, all 7 after res, no deleted sub-sequence), each helper "
-                 "receives the index and the right bit field, and all five passing yields true; (3) the pentagon set used by the validity test equals the pentagon set of baseCellData.",
-                 "equality of the carry trick / clz%3 test with the digit predicate over 2^64 values (needs bit-precise carry reasoning: solver family); the closure clause over all outputs.",
-                 "R-CONJ " + G + "; R-TAB T7 " + TAB + "; R-WIT " + WIT),
+ "C01": _partial("C01", "(1) the first sentence of the property in full: isValidCell returns true for EXACTLY the documented layout, for all 2^64 values - each bit trick "
+                 "(_hasGoodTopBits, _hasAny7UptoRes incl. its borrow chain, _hasAll7AfterRes, _hasDeletedSubsequence incl. clz % 3) equals its documented digit predicate for every "
+                 "resolution / base cell, and isValidCell as a whole (16 resolutions x 128 base-cell fields x all other bits) equals the documented predicate; a disagreement comes "
+                 "with a witness index; getResolution / getBaseCellNumber / isResClassIII return exactly their field; (2) the documented layout (field offsets/widths/masks, H3_INIT, "
+                 "mode value, counts, digit 7) as compile-time witnesses; (3) conjunct structure and argument binding of isValidCell; (4) the pentagon set used by the validity test "
+                 "equals the pentagon set of baseCellData.",
+                 "the closure clause (every index any function returns is valid) - only its bit-level building blocks are decided under C03/C04/C10.",
+                 BP + " (vlib/lanes.py); R-CONJ " + G + "; R-TAB T7 " + TAB + "; R-WIT " + WIT),
  "C02": _partial("C02", "res outside 0..15 => E_RES_DOMAIN, non-finite lat/lng => E_LATLNG_DOMAIN, never success, no index written, boundary resolutions accepted; the face-centre "
-                 "table that picks the face agrees with the one that projects onto it (T6); paired projection constants are mutually inverse (T16).",
-                 "containment of the point in the returned cell (floating-point geometry), success on arbitrary finite coordinates.", "R-GUARD " + G + "; R-TAB T6,T16 " + TAB),
+                 "table that picks the face agrees with the one that projects onto it (T6); paired projection constants are mutually inverse (T16); the closest-face loop compares "
+                 "every face centre (exits only at the table extent or below a threshold that is provably safe for the table's smallest centre angle), replaces the best exactly under "
+                 "d < best and starts from >= 4.0 (R-ARGMIN); cwOffsetPent = the faces on which the deleted K wedge is the clockwise neighbour of the pentagon's wedge (T19); the digit "
+                 "rotations _faceIjkToH3 applies (_h3Rotate60ccw/cw, _h3RotatePent60ccw/cw) rotate exactly the digits 1..res, for all index values.",
+                 "containment of the point in the returned cell (floating-point geometry: rounding, gnomonic projection), success on arbitrary finite coordinates.",
+                 "R-GUARD " + G + "; R-ARGMIN loop-exit / threshold rule against the face-centre table; " + BP + "; R-TAB T6,T16,T19 " + TAB),
  "C03": _partial("C03", "getNumCells = 2+120*7^res for res 0..15 and equals 110 hexagon + 12 pentagon trees of the tables; pentagonCount/res0CellCount/enumerator bounds agree with "
                  "the tables (T7); every base cell's home address looks itself up, cross-face lookup entries agree (T4), face adjacency maps are mutual inverses (T5), "
-                 "overage scale tables (T9); res-domain rejections of getNumCells/getPentagons.",
-                 "latLngToCell(cellToLatLng(h)) = h for 5.7e14 cells (numeric); validity of getPentagons' cells at res > 0.", "R-CFORM " + CF + "; R-TAB T4,T5,T7,T9 " + TAB + "; R-GUARD " + G),
+                 "overage scale tables (T9), cwOffsetPent (T19); res-domain rejections of getNumCells/getPentagons; the validity predicate that 'valid cells number exactly' "
+                 "quantifies over is the documented one for all 2^64 values and isPentagon is 'pentagon base cell and all digits 0' for all values (R-BITPROV); the closest-face loop "
+                 "is a complete arg-min (R-ARGMIN).",
+                 "latLngToCell(cellToLatLng(h)) = h for 5.7e14 cells (numeric); validity of getPentagons' cells at res > 0.",
+                 "R-CFORM " + CF + "; " + BP + "; R-ARGMIN; R-TAB T4,T5,T7,T9,T19 " + TAB + "; R-GUARD " + G),
  "C04": _partial("C04", "the rejection clauses of cellToParent (E_RES_DOMAIN / E_RES_MISMATCH), cellToChildrenSize and cellToCenterChild (E_RES_DOMAIN) for every index and resolution; "
-                 "cellToChildrenSize = 7^n (hexagon) / 1+5(7^n-1)/6 (pentagon) with n = childRes - res(h) for all 136 resolution pairs.",
-                 "the enumeration, order and partition clauses (arithmetic over all digit strings).", "R-GUARD " + G + "; R-CFORM " + CF),
+                 "cellToChildrenSize = 7^n (hexagon) / 1+5(7^n-1)/6 (pentagon) with n = childRes - res(h) for all 136 resolution pairs; for ALL index values: cellToParent stores "
+                 "exactly h with resolution = parentRes and digits parentRes+1..res = 7 (codes and no-store on failure included), cellToCenterChild exactly h with digits res+1..childRes "
+                 "= 0, makeDirectChild, isPentagon; the enumeration / order / partition clause by induction over the child iterator: iterInitParent yields the smallest child with the "
+                 "documented skip digit, iterStepChild maps every reachable iterator state to the NEXT child in index order (base-7 increment of digits p+1..c with its carry chain, "
+                 "skipping the deleted 1 of a pentagon) and to 0 after the last one, and cellToChildren stores the tested element before the single step at positions 0,1,2,.. (R-DRAIN).",
+                 "that the child set so enumerated has the size cellToChildrenSize reports is arithmetic (7^n resp. 1+5(7^n-1)/6 digit strings), not re-derived; centre coincidence (numeric).",
+                 "R-GUARD " + G + "; R-CFORM " + CF + "; " + BP + " with memory model (iterator induction); R-DRAIN loop-shape rule; R-ERRFLOW"),
  "C05": _partial("C05", "all live entries of the tables the neighbour step reads: digit transition tables = unique aperture-7 decomposition (T1), hexagon rows of both base-cell "
                  "tables derive from the face lookup (T2), adjacency symmetric with consistent rotations incl. the pentagon wedge rule (T3), digit rotation = coordinate rotation (T10), "
-                 "sibling shortcut of areNeighborCells (T11), pentagon markers (T7); k < 0 => E_DOMAIN on all seven entry points; maxGridDiskSize = 3k(k+1)+1 without overflow.",
-                 "the pentagon special cases in h3NeighborRotations, equality with BFS, ring order, hash-set slot bounds (path- and data-dependent).",
-                 "R-TAB T1,T2,T3,T7,T10,T11 " + TAB + "; R-GUARD " + G + "; R-CFORM " + CF),
+                 "sibling shortcut of areNeighborCells (T11), pentagon markers (T7), cwOffsetPent (T19); k < 0 => E_DOMAIN on all seven entry points; maxGridDiskSize = 3k(k+1)+1 without "
+                 "overflow; the index rotations the neighbour step applies (_h3Rotate60ccw/cw, _h3RotatePent60ccw/cw, _h3LeadingNonZeroDigit) are exact for all index values; the "
+                 "hash probe of the safe disk wraps with the modulus it starts with; a failing callee makes every disk function fail (one justified exception: E_PENTAGON = no neighbour).",
+                 "the pentagon special cases in h3NeighborRotations, equality with BFS, ring order (path- and data-dependent).",
+                 "R-TAB T1,T2,T3,T7,T10,T11,T19 " + TAB + "; " + BP + "; R-GUARD " + G + "; R-CFORM " + CF + "; R-SIB hash-probe modulus; R-ERRFLOW error-flow exploration"),
  "C06": _partial("C06", "uncompactCells writes outSet[i] only where i < numOut and returns E_MEMORY_BOUNDS when the capacity is reached; a target resolution coarser than a visited "
-                 "cell (or above 15) => E_RES_MISMATCH, never success.",
-                 "losslessness / canonicity / order independence of compactCells (runtime data structure).", "R-BW " + BW + "; R-GUARD " + G),
+                 "cell (or above 15) => E_RES_MISMATCH, never success; uncompactCells expands each input cell into exactly its children in index order (iterator induction as in C04 + "
+                 "R-DRAIN on its loop); cellToParent (used to find the parents compactCells counts) is bit-exact; both hash probes of compactCells wrap with the modulus they start with.",
+                 "losslessness / canonicity / order independence of compactCells (runtime data structure: counts in reserved bits, duplicate detection).",
+                 "R-BW " + BW + "; R-GUARD " + G + "; " + BP + "; R-DRAIN; R-SIB hash-probe modulus; R-ERRFLOW"),
  "C08": _partial("C08", "face adjacency/rotation tables are mutual inverses (T5), overage tables (T9), substrate vertex tables are closed ccw rings and the pentagon ones are their "
-                 "first five rows (T13); cellAreaKm2 = Rads2*R^2, cellAreaM2 = Km2*10^6.",
-                 "vertex counts, ccw order, coincidence of shared edges, areas summing to 4*pi (numeric geometry).", "R-TAB T5,T9,T13 " + TAB + "; R-CFORM " + CF),
+                 "first five rows (T13); cellAreaKm2 = Rads2*R^2, cellAreaM2 = Km2*10^6; cellAreaRads2 adds one triangle per side (i, (i+1) mod numVerts) of the boundary ring, "
+                 "every side once, accumulator from 0.0 (R-FOLD).",
+                 "vertex counts, ccw order, coincidence of shared edges, areas summing to 4*pi (numeric geometry).", "R-TAB T5,T9,T13 " + TAB + "; R-CFORM " + CF + "; R-FOLD accumulation-shape rule"),
  "C09": _partial("C09", "E_RES_MISMATCH for cells of different resolution on gridDistance, gridPathCellsSize, gridPathCells, cellToLocalIj; mode != 0 => E_OPTION_INVALID; the lattice "
-                 "tables that define 'neighbour' and that cellToLocalIjk unfolds with (T1,T2,T3,T10); PENTAGON_ROTATIONS_REVERSE undoes PENTAGON_ROTATIONS (T14).",
-                 "distance = graph distance, inverse pair beyond T14, the _POLAR/_NONPOLAR tables.", "R-GUARD " + G + "; R-TAB T1,T2,T3,T10,T14 " + TAB),
+                 "tables that define 'neighbour' and that cellToLocalIjk unfolds with (T1,T2,T3,T10); PENTAGON_ROTATIONS_REVERSE undoes PENTAGON_ROTATIONS (T14); the index rotations "
+                 "both directions apply are exact for all index values (R-BITPROV); overflow-checked parents cannot wrap (R-OVF); failing callees make the callers fail (R-ERRFLOW).",
+                 "distance = graph distance, inverse pair beyond T14, the _POLAR/_NONPOLAR tables.", "R-GUARD " + G + "; R-TAB T1,T2,T3,T10,T14 " + TAB + "; " + BP + "; R-OVF; R-ERRFLOW"),
  "C10": _partial("C10", "isValidDirectedEdge conjuncts (direction 1..6, mode 2 via getDirectedEdgeOrigin, not K on a pentagon, valid origin) and acceptance when all hold; "
-                 "E_NOT_NEIGHBORS and E_DIR_EDGE_INVALID clauses; direction<->vertex-number maps (T8), pentagon direction/face table (T12); edgeLengthKm/M unit factors.",
-                 "boundary stretch geometry, destination round trip.", "R-CONJ/R-GUARD " + G + "; R-TAB T8,T12 " + TAB + "; R-CFORM " + CF),
+                 "E_NOT_NEIGHBORS and E_DIR_EDGE_INVALID clauses; direction<->vertex-number maps (T8), pentagon direction/face table (T12); edgeLengthKm/M unit factors; for all 2^64 "
+                 "values isValidDirectedEdge accepts EXACTLY mode 2, direction 1..6 (not 1 on a pentagon) over a valid origin, and getDirectedEdgeOrigin stores exactly the edge with mode 1 and "
+                 "reserved bits 0 (R-BITPROV); edgeLengthRads adds one great-circle distance per consecutive pair of the boundary stretch (R-FOLD).",
+                 "boundary stretch geometry, destination round trip.", "R-CONJ/R-GUARD " + G + "; " + BP + "; R-FOLD accumulation-shape rule; R-TAB T8,T12 " + TAB + "; R-CFORM " + CF + "; R-ERRFLOW"),
  "C11": _partial("C11", "isValidVertex conjuncts (mode 4, valid owner, re-derivation succeeds, index equals the canonical one); vertex numbers outside the cell's range => E_DOMAIN; "
                  "T8, T12, pentagon set of pentagonDirectionFaces (T7).",
                  "agreement of the three incident cells, 2N-4 count, coordinates.", "R-CONJ/R-GUARD " + G + "; R-TAB T7,T8,T12 " + TAB),
  "C12": _partial("C12", "every row of the guard table (each documented rejection of an out-of-domain scalar: never success, documented code reachable, no write where stated); "
-                 "every function can only return codes 0..15 (value-set fixpoint over returns, parameters, error fields); error enum witnesses; maxGridDiskSize closed form.",
-                 "absence of undefined behaviour in general, hash-probe bounds, NEVER()/ALWAYS() reachability (statements about reachable values).",
-                 "R-GUARD/R-CONJ " + G + "; R-RET error-code value-set propagation; R-WIT " + WIT),
+                 "every function can only return codes 0..15 (value-set fixpoint over returns, parameters, error fields); no H3Error is dropped (R-ERRDISC) and for every used call site and "
+                 "every non-zero code of the callee the caller cannot reach `return E_SUCCESS` (R-ERRFLOW, one justified exception); overflow-checked helpers cannot wrap (R-OVF); no "
+                 "argument-derived table subscript beyond the extent (R-IDX); all bounded-write instances; every hash probe wraps with its starting modulus; error enum witnesses; maxGridDiskSize closed form.",
+                 "absence of undefined behaviour in general (signed overflow outside the checked helpers, float-to-int conversions, recursion depth), NEVER()/ALWAYS() reachability.",
+                 "R-GUARD/R-CONJ " + G + "; R-RET error-code value-set propagation; R-ERRDISC/R-ERRFLOW error-flow rules; R-OVF; R-IDX; R-BW; R-SIB; R-WIT " + WIT),
  "C13": _partial("C13", "the three rejection clauses of childPosToCell (E_RES_DOMAIN, E_RES_MISMATCH, E_DOMAIN via validateChildPos incl. position == size) and of cellToChildPos; "
                  "the child-count closed forms both directions validate against (cellToChildrenSize).",
                  "that the two digit/offset loops are mutually inverse and in cellToChildren order.", "R-GUARD " + G + "; R-CFORM " + CF),
@@ -101,7 +127,7 @@ CHECKS.update({
                  "without double free; a local vertex graph is destroyed on every path once initialised; cellsToLinkedMultiPolygon destroys the result before returning an error; "
                  "a hole that cannot be placed is freed; every struct type the builders allocate is freed in the call tree of destroyLinkedMultiPolygon / destroyVertexGraph.",
                  "the outline itself: one polygon per component, winding, closedness, enclosed area (depends on bit-level agreement of vertex coordinates and a float hash).",
-                 "R-ALLOC allocation typestate; R-OWN ownership-protocol rules over LLVM IR"),
+                 "R-ALLOC allocation typestate; R-OWN ownership-protocol rules over LLVM IR (incl. L6: no object is handed to addNewLinkedPolygon twice, which would orphan a polygon)"),
  "C19": _partial("C19", "maxFaceCount = 5 for a pentagon else 2; getIcosahedronFaces initialises and writes only slots below that count (relation facts incl. the insertion loop); "
                  "face adjacency tables (T5, T9).",
                  "that the reported faces are exactly the intersected ones (overage geometry).", "R-CFORM " + CF + "; R-BW " + BW + "; R-TAB T5,T9 " + TAB),
